@@ -8,6 +8,7 @@ for d in ${*:-$(ls "$V/seeded")}; do
   # the check named first in meta.json's caught_by ("C06 quick (also C03, C19)") is the one that must catch it
   CB=$(python3 -c "import json,sys,re; m=re.match(r'(C\d\d)', json.load(open(sys.argv[1])).get('caught_by','')); print(m.group(1) if m else '')" "$S/meta.json" 2>/dev/null)
   [ -n "$CB" ] && ID=$CB
+  if grep -q '"caught_by": "NOT CAUGHT' "$S/meta.json"; then echo "$d RECORDED-AS-NOT-CAUGHT (see meta.json / DESIGN 9.4)" | tee -a "$OUT"; continue; fi
   D=$(mktemp -d /tmp/mut-XXXXXX)
   rsync -a --exclude .git /repo/ "$D/repo/"
   if ! (cd "$D/repo" && patch -p1 -s --no-backup-if-mismatch < "$S/patch.diff" >/dev/null 2>&1); then echo "$d PATCH-DOES-NOT-APPLY" | tee -a "$OUT"; rm -rf "$D"; continue; fi
